@@ -88,7 +88,7 @@ func c20Custom(d *driver) int {
 	if d.tier == "thorough" {
 		procsList, reps = []int{1, 2, 4, 16}, 5
 	}
-	refs := []string{"ref:mem", "ref:os", "ref:wrapper"}
+	refs := []string{"ref:mem", "ref:os", "ref:wrapper", "ref:prefixed-paths@prefix"}
 	type job struct {
 		id       string
 		parallel int
@@ -219,7 +219,7 @@ func c20Custom(d *driver) int {
 	if len(lines) > 0 {
 		return 1
 	}
-	fmt.Printf("OK property=C20 tier=%s deviants=%d rejected=%d references=3 suite_runs=%d wall=%.1fs\n", d.tier, len(ids), rejected, len(jobs), time.Since(d.start).Seconds())
+	fmt.Printf("OK property=C20 tier=%s deviants=%d rejected=%d references=4 suite_runs=%d wall=%.1fs\n", d.tier, len(ids), rejected, len(jobs), time.Since(d.start).Seconds())
 	return 0
 }
 
